@@ -367,3 +367,29 @@ func checkStartClearsBuffer(w *World, r *Report, rule string) {
 	r.Check(ok, rule, fname(pr.start)+":clears-replayed-buffer", "after the replay Start empties the restart buffer on every path", w.fnPos(pr.start),
 		"the replayed messages stay buffered: a later crash inside Initialized/Started replays them a second time")
 }
+
+// deferredFn: the function a defer statement runs (closure literal or named function/method).
+func deferredFn(d *ssa.Defer) *ssa.Function {
+	if mc, ok := d.Call.Value.(*ssa.MakeClosure); ok {
+		f, _ := mc.Fn.(*ssa.Function)
+		return f
+	}
+	return d.Call.StaticCallee()
+}
+
+// recoverHandlerOf: the function deferred by host that calls recover() (closure or named method).
+func (pr *procRoles) recoverHandlerOf(host *ssa.Function) *ssa.Function {
+	for _, b := range host.Blocks {
+		for _, in := range b.Instrs {
+			if d, ok := in.(*ssa.Defer); ok {
+				f := deferredFn(d)
+				for _, rf := range pr.recovers {
+					if rf == f && f != nil {
+						return f
+					}
+				}
+			}
+		}
+	}
+	return nil
+}
